@@ -15,7 +15,13 @@ Two parts:
     never succeed (the model finds the deadlock and it reproduces on the real classes; it is reported in DESIGN.md as an
     observation outside the statement of C20). In these scenarios blocked end states only have to satisfy the safety part.
 
-(b) liveness table and heartbeat bookkeeping, sequential histories - engine A (CrossHair), see checks/c20_seq.py.
+(b) liveness table under concurrency - engine B. WorkerRegistry.refresh / register / unregister are compiled from source
+    (the dict is used with one address: a single Optional[float] slot; heartbeat times are symbolic in 1..9); 2-4 threads
+    each perform one operation on the same address from an alive / dead / unknown entry. z3 decides: the final entry is
+    the result of SOME sequential order of the operations (so a late refresh never revives a dead worker and never
+    moves a newer registered heartbeat backwards), and nobody raises.
+
+(c) liveness table and heartbeat bookkeeping, sequential histories - engine A (CrossHair), see checks/c20_seq.py.
 """
 import os
 
@@ -33,7 +39,19 @@ def scenarios(tier):
   add('own-acquire-release_all-vs-blocking-acquire', variant='blocking', stuck_ok=True, depths=(20, 30, 40))
   add('own-1w-acquire_all-release_all-x2', variant='acquire_all', depths=(20, 30, 40, 50))
   add('own-1w-acquire_all-vs-blocking-acquire_all', variant='acquire_all_blocking', stuck_ok=True, depths=(20, 30, 40, 50))
+  def reg(ops, init, **kw):
+    S.append(dict(name='reg-' + '+'.join(ops) + '-from-' + init, kind='registry', pred='c20reg', ops=ops, init=init, depths=(10, 20, 30), **kw))
+  for init in ('alive', 'dead', 'absent'):
+    reg(('refresh', 'unregister'), init)
+    reg(('refresh', 'register'), init)
+    reg(('refresh', 'refresh'), init)
+  reg(('refresh', 'register', 'unregister'), 'alive')
   if tier == 'thorough':
+    for init in ('alive', 'dead', 'absent'):
+      reg(('refresh', 'refresh', 'unregister'), init)
+      reg(('refresh', 'refresh', 'register'), init)
+      reg(('refresh', 'register', 'unregister'), init)
+      reg(('refresh', 'refresh', 'register', 'unregister'), init)
     add('own-2w-acquire_all-release_all-x2', variant='acquire_all', nworkers=2, depths=(30, 40, 50, 60, 70, 80))
     add('own-2w-acquire_all-vs-blocking-acquire_all', variant='acquire_all_blocking', nworkers=2, stuck_ok=True, depths=(30, 40, 50, 60, 70, 80))
   return S
@@ -55,6 +73,8 @@ def run(tier):
   rep.assume('threading.Lock: not owned, non-reentrant; threading.RLock: owned, re-entrant; Lock.locked() is atomic',
              'a context switch between two operations that are both protected by a common lock (static must-lockset analysis) is not observable')
   from ml_metrics._src.chainables import courier_worker as cw
+  from ml_metrics._src.utils import courier_utils as cu
+  rep.encoded(cu.WorkerRegistry.refresh, cu.WorkerRegistry.register, cu.WorkerRegistry.unregister)
   rep.encoded(cw.Worker.acquire_by, cw.Worker.release, cw.Worker.is_available, cw.Worker.is_locked, cw.WorkerPool._acquire_all, cw.WorkerPool.release_all)
   if jobs:
     results = srun.run_jobs(worker, jobs, nproc=min(len(jobs), common.NCPU))
@@ -63,7 +83,7 @@ def run(tier):
     from checks import c20_seq
   except ImportError:
     c20_seq = None
-  if c20_seq is not None and (not only or 'seq' in only or not jobs):
+  if c20_seq is not None and getattr(c20_seq, 'READY', False) and (not only or 'seq' in only or not jobs):
     c20_seq.run_into(rep, tier)
   return rep.finish()
 
